@@ -10,7 +10,7 @@ LEVEL = 'exploration'
 SHARDS = 16
 THREADS = 2
 EXHAUSTIVE = {'quick': False, 'thorough': True}
-RULE = ('one case = one scripted server with a moduli policy (subset of {512,768,1024,1536,2048,3072,4096,6144,8192} x selection style strict / round-up / OpenSSH-fallback) offering sha1, sha256 or both group exchanges under an '
+RULE = ('one case = one scripted server with a moduli policy (subset of {512,768,1024,1536,2048,3072,4096,6144,8192} x selection style strict / round-up / OpenSSH-fallback, plus the readings exact-preferred-size-only and smallest-between-preferred-and-max) offering sha1, sha256 or both group exchanges under an '
         'OpenSSH, Dropbear or unknown banner, audited for real (quick: all subsets of size <= 2 and all suffix subsets; thorough: all 511 subsets).  Oracle: reported size == model(min over the fixed probe sequence of what the policy hands out; '
         'OpenSSH + 2048 => answer to the 2048-3072-4096 probe) and == the same function of the GEX_REQUESTs the peer actually logged; differential 2048/3072 threshold oracle against a 4096-bit baseline; '
         'refusing / stalling / garbage servers get no size, and so does an OpenSSH server whose fallback answered 2048 but whose follow-up probe (alone) is refused, stalled, truncated or garbled.  Non-trivial: >= 1 GEX_REQUEST logged and a size verdict compared; distinct = distinct (policy, algorithms, banner)')
@@ -39,7 +39,12 @@ def cases(tier, seed):
     cs = []
     i = 0
     for s in subs:
-        for style in ('strict', 'roundup', 'openssh'):
+        for style in ('strict', 'roundup', 'openssh', 'exact', 'roundup-max'):
+            if style in ('exact', 'roundup-max') and tier == 'quick':
+                # two further readings of "strict" / "round-up" (exact preferred size only; smallest size between preferred and max): kept in the quick tier where they answer the probe sequence differently from the first two
+                seq = [peermod.moduli_answer({'sizes': s, 'style': style}, *q) for q in SEQ]
+                if any(seq == [peermod.moduli_answer({'sizes': s, 'style': st}, *q) for q in SEQ] for st in ('strict', 'roundup')) or len(s) > 2:
+                    continue
             if tier == 'quick':
                 combos = [(['openssh', 'dropbear', 'unknown'][i % 3] if style != 'openssh' else ['openssh', 'openssh', 'unknown'][i % 3], [[GEX256], [GEX1], [GEX1, GEX256]][(i // 3) % 3])]
             else:
